@@ -104,6 +104,13 @@ def year_forms_for(case, kind):
 
 def evaluate(case, engine, acc=None, want='C19', keep_old_solution=False):
     kind = 'synth' if engine.startswith('synth') else 'shipped'
+    if case.get('fill_prelude'):
+        try:
+            evaluate(case['fill_prelude'], engine, None, want=want)
+        except (core.RunTimeout, core.BudgetExceeded):
+            pass
+        if acc is not None:
+            acc.count('fault:earlier-fill-in-same-process')
     run = solve_cli(case, kind, keep_old_solution)
     fs = []
     year, year_forms, by_name = year_forms_for(case, kind)
@@ -124,7 +131,8 @@ def evaluate(case, engine, acc=None, want='C19', keep_old_solution=False):
             if alien:
                 fs.append(F('C14', 'C14.year', 'solved-with-other-years-forms',
                             f'the solution says tax_year {label}, but forms {alien[:4]} that worked it out are not from the {label} catalogue'))
-    if run.outcome == 'solved' and run.solution_file:
+    if (run.outcome == 'solved' or (want == 'C14' and run.outcome == 'failed')) and run.solution_file:
+        # (C14: the partial solution a failed solve writes is a written solution too)
         text = pipeline.relayout(run.solution_file, case['pipe'].get('relayout'))
         res = pipeline.fill(text, year_forms, flatten=case['pipe']['flatten'])
         try:
@@ -228,6 +236,10 @@ def make_case(engine, seed, tight=None, unicode=False):
 
 def run_one(engine, seed, acc, tier):
     case = make_case(engine, seed)
+    if not engine.startswith('synth') and core.Rng(core.h64('c19pre', seed)).chance(0.5):
+        # another return (usually of another year) is solved and filled first, in the same process
+        pre = make_case(engine, core.h64('c19prelude', seed))
+        case['fill_prelude'] = {k: pre[k] for k in pre}
     for f in evaluate(case, engine, acc):
         acc.violation(base.violation(ID, f, case, seed, engine))
 
